@@ -167,6 +167,7 @@ def run(ctx):
         texts = list(dict.fromkeys(texts))
         judge_positions(ctx, label, texts)
     judge_validation_positions(ctx, quick)
+    judge_schema_truncations(ctx, quick)
     jc.proof_tail(ctx, st, ["C17_*"])
 
 
@@ -239,6 +240,42 @@ def judge_validation_positions(ctx, quick):
             ctx.report("validation error position: library %s, the offending %s starts at %s; document %r" % (r[1], "key" if code == "E206" else "value", want, text[:120]),
                        "valpos:" + l, {"schema": json.loads(l)["schema"], "document": text, "implementation": r[1], "expected": want}, case=text)
     ctx.extra["validation_position_cases"] = len(lines)
+
+
+def judge_schema_truncations(ctx, quick):
+    """schema and enum texts that end inside an opener (the first byte of // or /*, an unclosed ### comment, an unclosed /*): the input ends early, so Check fails at the last byte;
+    and ## followed by a byte other than #: the first byte that cannot continue the text is that byte"""
+    import jsight as J
+    rng = ctx.rng
+    # bases without annotations or comments on their last line (after an annotation the rest of the line belongs to it)
+    bases = ["1", "{}", "[]", '"s"', '{\n  "a": 1\n}', "true // {const: true}\n"] + [J.plain_json(J.rand_rule_schema(rng, rng.randint(0, 2))) for _ in range(20 if quick else 300)]
+    cases = []
+    for b in bases:
+        sep = " " if not b.endswith("\n") else ""
+        for suf in ("/", "/*", "/* {min: 1", "/* c", "###", "### x", "### x ##", "### x #\n y"):
+            t = b + sep + suf
+            cases.append((t, len(t.encode()) - 1, "the text ends inside %r" % suf))
+        for suf, off in (("##x", 2), ("## c", 2), ("##\n", 2)):
+            t = b + sep + suf
+            cases.append((t, len((b + sep).encode()) + off, "after ## only # can follow"))
+    cases.append(("/", 0, "the text ends inside '/'"))
+    outs = vc.impl(["schema"], [json.dumps({"schema": t, "ops": [["check"]]}) for t, _, _ in cases])
+    for (t, want, why), o in zip(cases, outs):
+        r = json.loads(o)[0]
+        ctx.evaluations += 1
+        # where an annotation is not allowed at all (after the closing bracket of a non-empty array, ...) the slash itself is the offending byte (304)
+        slash = t.rfind(" /")
+        if r == "E304@%d" % (slash + 1) and slash >= 0 and "/" in why:
+            continue
+        if (r == "ok" or not r.endswith("@%d" % want)) and len(ctx.violations) < 40:
+            ctx.report("schema parse error position: Check(%r) says %s, %s: expected an error at %d" % (t[-40:], r, why, want), "schemapos:" + t, {"schema": t, "implementation": r, "expected_position": want, "why": why}, case=t)
+    ecases = [("[1] /", 4), ("[1]/", 3), ('["a", "b"] /*', 12), ("[1 /", 3)]
+    for (t, want), o in zip(ecases, vc.impl(["enumrule"], [json.dumps({"text": t}) for t, _ in ecases])):
+        r = json.loads(o)[0]
+        ctx.evaluations += 1
+        if (r == "ok" or not r.endswith("@%d" % want)) and len(ctx.violations) < 40:
+            ctx.report("enum rule parse error position: Check(%r) says %s, the text ends inside an opener: expected an error at %d" % (t, r, want), "enumpos:" + t, {"enum": t, "implementation": r, "expected_position": want}, case=t)
+    ctx.extra["schema_truncation_cases"] = len(cases) + len(ecases)
 
 
 def replay(ctx, path):
